@@ -233,6 +233,16 @@ def bitsOfList (c : Ctx) : Nat → List Conn → R (List Atom)
     pure (a ++ b)
 end
 
+mutual
+/-- the member paths an anonymous bundle binds (a member that is itself an anonymous bundle contributes its own) -/
+def anonPaths : Conn → List (List String)
+  | .anon fields => anonPathsFields fields
+  | _ => [[]]
+def anonPathsFields : List (String × Conn) → List (List String)
+  | [] => []
+  | (f, v) :: rest => (anonPaths v).map (f :: ·) ++ anonPathsFields rest
+end
+
 /-- Is the connection bundle-like (for `Pair` members)? -/
 def Conn.bundleLike : Conn → Bool
   | .bundle _ => true
@@ -286,6 +296,14 @@ def toFMod (d : Design) (m : Module) : R FMod := do
     -- connections to ports that do not exist
     for (p, _) in i.conns do
       if !(ports.any (fun x => x.1 == p)) then throw s!"{m.name}.{i.name}: no port {p}"
+    -- members of an anonymous bundle that the bundle port does not have (an extra connection, through the bundle)
+    for (p, cn) in i.conns do
+      match cn with
+      | .anon _ =>
+        for π in anonPaths cn do
+          if !(ports.any (fun x => x.1 == p && π.isPrefixOf x.2.1)) then
+            throw s!"{m.name}.{i.name}: bundle port {p} has no member {π}"
+      | _ => pure ()
     let elems : List (String × Option (Nat ⊕ String)) := match i.kind with
       | .single => [(i.name, none)]
       | .array n => (List.range n).map (fun k => (i.name ++ "_" ++ toString k, some (.inl k)))
